@@ -43,6 +43,76 @@ Theorem C19_autocut_disabled_identity : forall l : list (Z * Z), autocut_results
 Proof. exact autocut_results_disabled. Qed.
 Print Assumptions C19_autocut_disabled_identity.
 
+(** ---- aggregation ---- *)
+From Comet Require Import Model.Aggregation Model.Fusion Proofs.SortingP Proofs.AggP Proofs.FusionP.
+From Coq Require Import Sorted.
+
+(** each input id exactly once, carrying the sum / max / mean of ITS scores in input order *)
+Theorem C19_aggregate_each_id_once : forall k l,
+  NoDup (map fst (agg_scores k l)) /\
+  (forall j, In j (map fst (agg_scores k l)) <-> In j (map fst l)) /\
+  (forall j s, In (j, s) (agg_scores k l) -> s = agg_score k (scores_of j l)).
+Proof. exact agg_scores_spec. Qed.
+Print Assumptions C19_aggregate_each_id_once.
+
+(** best first for the modality: vectors ascending, text descending (a permutation of the pairs above) *)
+Theorem C19_aggregate_vec_best_first : forall k l,
+  Permutation (agg_scores k l) (aggregate_vec k l) /\
+  StronglySorted (le_key (fun p : Z * Z => F32.key (snd p))) (aggregate_vec k l).
+Proof. exact aggregate_vec_spec. Qed.
+Print Assumptions C19_aggregate_vec_best_first.
+
+Theorem C19_aggregate_txt_best_first : forall k l,
+  Permutation (agg_scores k l) (aggregate_txt k l) /\
+  StronglySorted (le_key (fun p : Z * Z => - F32.key (snd p))) (aggregate_txt k l).
+Proof. exact aggregate_txt_spec. Qed.
+Print Assumptions C19_aggregate_txt_best_first.
+
+(** independent of the interleaving of different ids in the input *)
+Theorem C19_aggregate_order_independent : forall k l1 l2,
+  (forall j, scores_of j l1 = scores_of j l2) ->
+  forall j s, In (j, s) (agg_scores k l1) <-> In (j, s) (agg_scores k l2).
+Proof. exact agg_scores_order_independent. Qed.
+Print Assumptions C19_aggregate_order_independent.
+
+(** ---- fusion (score maps with distinct keys) ---- *)
+Theorem C19_weighted_sum_over_union : forall vw tw v t j, NoDup (map fst v) -> NoDup (map fst t) ->
+  lookup j (fuse_weighted vw tw v t) =
+  match lookup j v, lookup j t with
+  | Some a, Some b => Some (F64.add (F64.mul a vw) (F64.mul b tw))
+  | Some a, None => Some (F64.mul a vw)
+  | None, Some b => Some (F64.mul b tw)
+  | None, None => None
+  end.
+Proof. exact fuse_weighted_spec. Qed.
+Print Assumptions C19_weighted_sum_over_union.
+
+Theorem C19_max_over_union : forall v t j, NoDup (map fst t) ->
+  lookup j (fuse_max v t) =
+  match lookup j v, lookup j t with
+  | Some a, Some b => Some (if F64.gtb b a then b else a)
+  | Some a, None => Some a
+  | None, Some b => Some b
+  | None, None => None
+  end.
+Proof. exact fuse_max_spec. Qed.
+Print Assumptions C19_max_over_union.
+
+Theorem C19_min_over_intersection : forall v t j, NoDup (map fst v) ->
+  lookup j (fuse_min v t) =
+  match lookup j v, lookup j t with
+  | Some a, Some b => Some (if F64.ltb a b then a else b)
+  | _, _ => None
+  end.
+Proof. exact fuse_min_spec. Qed.
+Print Assumptions C19_min_over_intersection.
+
+(** merging store results keeps each id once *)
+Theorem C19_merge_each_id_once : forall l,
+  NoDup (map fst (merge_results l)) /\ (forall j, In j (map fst (merge_results l)) <-> In j (map fst l)).
+Proof. intro l. split; [apply merge_results_nodup | intro j; apply merge_results_keys]. Qed.
+Print Assumptions C19_merge_each_id_once.
+
 (** non-vacuity: a concrete run with a real cut *)
 Example C19_autocut_example :
   autocut [F32.of_Z 1; F32.of_Z 2; F32.of_Z 3; F32.of_Z 50; F32.of_Z 51] 1 = Cut 3
